@@ -145,6 +145,20 @@ def replay_tables(run, recs):
         if hex2rgb(h) != tuple(rgb) or rgb2hex(name.upper()) != h or hexa_color(name) != h:
             run.violation("color|css-name-roundtrip", {"name": name})
     run.klass("color", "css-names")
+    # a colour given with white space around it (a line read from a file ...): what comes out is still the ODF lexical form
+    import re as _re
+
+    for core in ("#FF8000", "#00ff7f", "#000000", "red", "LightSlateGray", "navy"):
+        for lead in ("", " ", "\t", "\n", " \r\n"):
+            for trail in ("", " ", "\t", "\n", "\r\n", " \n "):
+                run.count()
+                try:
+                    got = hexa_color(lead + core + trail)
+                except Exception as ex:  # noqa: BLE001
+                    got = f"{type(ex).__name__}"
+                if got != hexa_color(core) or not _re.fullmatch(r"#[0-9A-Fa-f]{6}", got or ""):
+                    run.violation("color|padded-argument", {"arg": lead + core + trail, "got": got, "want": hexa_color(core)})
+    run.klass("color", "padded")
     for bad in ("#12345", "#1234567", "123456", "#12345G", "#12 456", "", "#-12345", "#+12345", "# 12345"):
         run.count()
         try:
